@@ -64,6 +64,20 @@ def run(eng, R):
     src = common.src_of(f.node)
     R.ob("H-geom", "%s._bin_evaluation_numerical" % M, "zip(self._bin_edges[:-1], self._bin_edges[1:])" in src and "integrate.quad(_integrand_func, _a, _b)" in src
          and "self.eval_model_function_density(x)" in src and "_int_val[_i], _ =" in src, (f.file, f.lineno), "numerical evaluation must integrate the density over each (lower, upper) edge pair")
+    # every bin is integrated: no path through one iteration of the bin loop skips the store
+    fnum = get_func(p, M, "_bin_evaluation_numerical")
+    g = eng.cfg(fnum)
+    loops = [n for n in g.nodes if n.kind == "for" and "zip(self._bin_edges[:-1], self._bin_edges[1:])" in " ".join(ast.unparse(n.stmt.iter).split())]
+    ok = len(loops) == 1
+    if ok:
+        def stores_bin(n):
+            st = n.stmt
+            return n.kind == "stmt" and isinstance(st, ast.Assign) and "_int_val[" in ast.unparse(st.targets[0]) and "integrate.quad" in ast.unparse(st.value)
+
+        path = g.find_path(loops[0].id, lambda m: m.id == loops[0].id, exceptional=False, avoid=stores_bin)
+        ok = path is None or len(path) <= 1
+    R.ob("H-geom", "%s._bin_evaluation_numerical:every bin" % M, ok, (fnum.file, fnum.lineno),
+         "an iteration of the bin loop can finish without integrating the density over the bin (guard / continue before the store): the content of such bins stays 0")
     f = get_func(p, M, "eval_model_function_density")
     src = common.src_of(f.node)
     R.ob("H-geom", "%s.eval_model_function_density" % M, "model_parameters if model_parameters is not None else self._model_parameters" in src and "self._model_function_object(x, *_pars)" in src,
